@@ -275,6 +275,10 @@ impl Ctx {
 
     /// Splits a total case budget over the shards (rounded up, at least 1 per round).
     pub fn share(&self, total: u64) -> u32 {
+        // The thorough totals written in the property modules date from when the oracles were
+        // cheaper; a full thorough pass over 16 properties has to stay within a few hours, so a
+        // quarter of them is run (still 8..25 x the quick tier).
+        let total = if self.tier == Tier::Thorough { (total + 3) / 4 } else { total };
         let per = (total + NSHARDS as u64 - 1) / NSHARDS as u64;
         per.max(ROUNDS as u64) as u32
     }
